@@ -2,12 +2,13 @@ package main
 
 import (
 	"crypto/sha256"
-	"os/exec"
-	"golang.org/x/tools/go/ssa"
 	"encoding/json"
 	"fmt"
+	"golang.org/x/tools/go/ssa"
 	"os"
+	"os/exec"
 	"path/filepath"
+	"regexp"
 	"sort"
 	"strconv"
 	"strings"
@@ -328,8 +329,8 @@ func runCheck(root string, args []string) int {
 	if _, usesKeys := E.Used["A-KEYS"]; usesKeys && (tier == "thorough" || keysChanged) {
 		res := runKeyLayer(root, vd)
 		bounded = append(bounded, map[string]interface{}{
-			"name": "bounded:A-KEYS key layer (keylayer/zz_keylayer_test.go on the real x/alliance/types/keys.go)",
-			"bound": "12 denoms x 12 addresses (1..32 bytes) x 10 times x 9 heights; 7 facts: injective constructors / disjoint families, parsers = projections, prefix scans, suffix match, chronological end-exclusive ranges, pagination-key time survives prefix stripping, family prefixes",
+			"name":   "bounded:A-KEYS key layer (keylayer/zz_keylayer_test.go on the real x/alliance/types/keys.go)",
+			"bound":  "12 denoms x 12 addresses (1..32 bytes) x 10 times x 9 heights; 7 facts: injective constructors / disjoint families, parsers = projections, prefix scans, suffix match, chronological end-exclusive ranges, pagination-key time survives prefix stripping, family prefixes",
 			"status": res.status, "seconds": res.secs, "failed_facts": res.failed,
 		})
 		if res.status == "failed" {
@@ -338,7 +339,7 @@ func runCheck(root string, args []string) int {
 			os.MkdirAll(dir, 0o755)
 			path := filepath.Join(dir, "bounded_A-KEYS_key_layer.json")
 			jsonOut(path, map[string]interface{}{"property": prop, "obligation": "bounded:A-KEYS", "replayed": true,
-				"reason": "the real key builders/parsers violate a fact the algebraic key model assumes; the failing inputs are in the test output",
+				"reason":       "the real key builders/parsers violate a fact the algebraic key model assumes; the failing inputs are in the test output",
 				"failed_facts": res.failed, "output": res.out, "rerun": "cd /repo && go test -overlay <{\"Replace\":{\"/repo/x/alliance/types/zz_keylayer_test.go\":\"/verif/keylayer/zz_keylayer_test.go\"}}> -vet=off -run TestKeyLayer ./x/alliance/types/"})
 			vioLines = append(vioLines, fmt.Sprintf("VIOLATION property=%s replay=%s obligation=bounded:A-KEYS (%s: the algebraic key model does not describe the real keys.go)", prop, path, strings.Join(res.failed, ",")))
 		} else if res.status != "passed" {
@@ -352,6 +353,94 @@ func runCheck(root string, args []string) int {
 	}[prop]; rwFacts != nil && tier == "thorough" {
 		runBoundedSuite(root, vd, prop, seed, "reward-arithmetic", "bounded/zz_bounded_rewards_test.go", "TestBoundedRewardArithmetic", rwFacts,
 			"55 scenarios: 3 with an 18-decimals asset staked next to a 6-decimals asset of equal weight; 4 claims stepping through a reward-weight change (earlier claim, accrual, weight change, accrual, claim); 1,2,3,5 delegators x 3 reward weights x 4 reward amounts (1 .. 1e12), stakes 1 .. 1e24 base units, two assets, two reward denoms, seeded claim order",
+			isKnown, &knownHit, &bounded, &violations, &vioLines)
+	}
+	// thorough tier: every defect that was repaired stays repaired - the replay test of each `fixed:` entry of this property is run against the
+	// working tree; it must not print REPLAY-CONFIRMED (a returned defect is reported with the concrete history the replay prints)
+	if tier == "thorough" {
+		type rp struct{ file, test string }
+		seenT := map[string]bool{}
+		var rps []rp
+		re := regexp.MustCompile(`(replay_tests/\S+\.go) \((\w+)\)`)
+		for _, k := range known {
+			if k.Property != prop || k.Status != "fixed" {
+				continue
+			}
+			if mm := re.FindStringSubmatch(k.Witness); mm != nil && !seenT[mm[2]] {
+				seenT[mm[2]] = true
+				rps = append(rps, rp{mm[1], mm[2]})
+			}
+		}
+		if len(rps) > 0 {
+			t0r := time.Now()
+			repl := map[string]string{}
+			var names []string
+			for _, r := range rps {
+				src := filepath.Join(vd, r.file)
+				if _, err := os.Stat(src); err != nil {
+					src = filepath.Join("/verif", r.file)
+				}
+				repl[filepath.Join(root, "x/alliance/keeper/tests", filepath.Base(r.file))] = src
+				names = append(names, r.test)
+			}
+			ov, _ := os.CreateTemp("", "gvc-ov-*.json")
+			jb, _ := json.Marshal(map[string]interface{}{"Replace": repl})
+			ov.Write(jb)
+			ov.Close()
+			cmd := exec.Command("go", "test", "-v", "-overlay", ov.Name(), "-vet=off", "-count=1", "-timeout", "900s", "-run", "^("+strings.Join(names, "|")+")$", "./x/alliance/keeper/tests/")
+			cmd.Dir = root
+			cmd.Env = append(os.Environ(), "GOFLAGS=-mod=mod", "GOPROXY=off", "GOSUMDB=off", "GOTOOLCHAIN=local")
+			b, err := cmd.CombinedOutput()
+			os.Remove(ov.Name())
+			out := string(b)
+			var returned []string
+			for _, l := range strings.Split(out, "\n") {
+				if strings.Contains(l, "REPLAY-CONFIRMED") {
+					returned = append(returned, strings.TrimSpace(l))
+				}
+			}
+			ran := 0
+			for _, n := range names {
+				if strings.Contains(out, "--- PASS: "+n) || strings.Contains(out, "--- FAIL: "+n) {
+					ran++
+				}
+			}
+			status := "passed"
+			if len(returned) > 0 {
+				status = "failed"
+			} else if err != nil || ran != len(names) {
+				status = "could not build or run: " + firstLine(out)
+			}
+			bounded = append(bounded, map[string]interface{}{
+				"name": "regression: replays of the repaired defects of this property (replay_tests/, on the real code)", "bound": "the recorded failing histories only: " + strings.Join(names, ", "),
+				"status": status, "seconds": time.Since(t0r).Seconds(), "failed_facts": returned,
+			})
+			if status != "passed" {
+				violations++
+				dir := filepath.Join(vd, "replays", prop)
+				os.MkdirAll(dir, 0o755)
+				path := filepath.Join(dir, "regression_replays.json")
+				if len(out) > 8000 {
+					out = out[:8000]
+				}
+				jsonOut(path, map[string]interface{}{"property": prop, "obligation": "regression:fixed-findings", "replayed": len(returned) > 0,
+					"reason": "a repaired defect of this property is back: its replay reproduces the recorded failure on the current source", "returned": returned, "status": status, "output": out})
+				line := fmt.Sprintf("VIOLATION property=%s replay=%s obligation=regression:fixed-findings (%d repaired defect(s) reproduced again)", prop, path, len(returned))
+				if len(returned) == 0 {
+					line = fmt.Sprintf("VIOLATION property=%s replay=%s obligation=regression:fixed-findings (could not be run on the current source: %s) no-failing-input-found", prop, path, status)
+				}
+				vioLines = append(vioLines, line)
+			}
+		}
+	}
+	// thorough tier: bounded stand-in for the numeric rebalance target, the net-supply closed form and the end blocker's success (C10, C11, C17)
+	if rebFacts := map[string][]string{
+		"C10": {"bonded_validators_at_target", "unbonded_validators_not_adjusted", "end_of_block_succeeds"},
+		"C11": {"module_holds_no_staking_denom", "net_supply_unchanged", "no_user_receives_staking_denom"},
+		"C17": {"end_of_block_succeeds"},
+	}[prop]; rebFacts != nil && tier == "thorough" {
+		runBoundedSuite(root, vd, prop, seed, "rebalance", "bounded/zz_bounded_rebalance_test.go", "TestBoundedRebalance", rebFacts,
+			"10 seeded random histories x 14 blocks, 3 bonded validators with native stake, 3 users, two assets (one starts 5 minutes later), alliance and native (un)delegations, weight changes, jail/unjail, real staking slashes, fee distribution; each block ends with the staking validator-set update and the real EndBlocker",
 			isKnown, &knownHit, &bounded, &violations, &vioLines)
 	}
 	// thorough tier: bounded comparison of the queries with an independent enumeration (C20)
@@ -424,8 +513,8 @@ func runCheck(root string, args []string) int {
 			}
 		}
 		bounded = append(bounded, map[string]interface{}{
-			"name": "bounded:positions (bounded/zz_bounded_positions_test.go on the real Delegate / Undelegate / Redelegate / SlashValidator)",
-			"bound": "12 seeded random histories x 14 steps, 4 users x 3 validators, amounts 1, 7, 1e6, 1e12+7, 1e18, 1e24, 1e30, slashes 0.01%, 5%, 50%, 100%; facts of this property: " + strings.Join(posFacts, ", ") + "; each fact is qualified by the regime it was checked in (\"\", @18dec, @after_full_slash, @zero_valued_validator)",
+			"name":   "bounded:positions (bounded/zz_bounded_positions_test.go on the real Delegate / Undelegate / Redelegate / SlashValidator)",
+			"bound":  "12 seeded random histories x 14 steps, 4 users x 3 validators, amounts 1, 7, 1e6, 1e12+7, 1e18, 1e24, 1e30, slashes 0.01%, 5%, 50%, 100%; facts of this property: " + strings.Join(posFacts, ", ") + "; each fact is qualified by the regime it was checked in (\"\", @18dec, @after_full_slash, @zero_valued_validator)",
 			"status": res.status, "seconds": res.secs, "failed_facts": mine, "known_failed_facts": knownFacts,
 		})
 		if len(unknownFacts) > 0 || (res.status != "passed" && res.status != "failed") {
